@@ -18,8 +18,14 @@ RULE = ('(matrix) Hypothesis draws an operation (copy [optionally onto another p
         'the same phase label (or the case twin when the exact label is not among the target phases), the same T and P, '
         'the source is unchanged; then every flow, T, P and the phase of one side is overwritten (item writes, slice '
         'writes or empty()) and the other side must be unchanged, in both directions. '
+        'Sources also include a phase sub-stream (view) of a MultiStream; target phase sets are drawn equal to, as '
+        'case twins of, or independently of the source\'s. '
         '(proxy) proxy / flow_proxy of every kind (constructor-built and converted MultiStreams), identity of the '
-        'shared containers, write-through in both directions, then unlink of either member. '
+        'shared containers, write-through in both directions, optionally reading the phase sub-streams of the proxy, '
+        'then unlink of either member. '
+        '(substream) for multi-phase streams the phase sub-streams ms[phase] (handed out before or after the '
+        'operation) must show and write the stream\'s row, T and P after link_with (8 flag subsets), unlink, '
+        'copy_like, copy, flow_proxy. '
         '(links) histories of 1-30 steps over 2-7 streams of one kind and package: proxy, flow_proxy, copy, link_with '
         '(all 8 flag subsets), unlink, copy_like, copy_thermal_condition, copy_phase, flow/T/P/phase writes; reference '
         'model = sharing cells (flow cell, TP cell, phase cell) with values; after every step every stream shows the '
@@ -48,6 +54,10 @@ REQUIRED_CELLS = {'quick': ['m:copy_like:tgt=S,src=S', 'm:copy_like:tgt=S,src=M1
                             'l:op=proxy', 'l:op=flow_proxy', 'l:op=unlink', 'l:op=copy',
                             'l:link=000', 'l:link=001', 'l:link=010', 'l:link=011', 'l:link=100', 'l:link=101',
                             'l:link=110', 'l:link=111', 'l:kind=S', 'l:kind=M',
+                            'x:proxy:src=S,via=ctor', 'x:proxy:src=M,via=conv', 'x:proxy:src=M,via=ctor',
+                            'x:flow_proxy:src=S,via=ctor', 'x:flow_proxy:src=M,via=ctor', 'x:proxy:unlink_proxy',
+                            'x:proxy:unlink_original', 'v:link:pre=1', 'v:unlink:pre=1', 'v:link:pre=0',
+                            'm:copy_like:tgt=S,src=V', 'm:copy_like:tgt=M,src=V', 'p:stream-id:S', 'p:stream-id:M',
                             'p:stream:S', 'p:stream:M', 'p:rxn:Reaction', 'p:rxn:ParallelReaction',
                             'p:rxn:SeriesReaction', 'p:rxn:ReactionSystem', 'p:chem:ref=s', 'p:chem:ref=l',
                             'p:chem:ref=g', 'p:chem:locked', 'p:thermo:Thermo', 'p:thermo:IdealThermo'],
@@ -231,8 +241,18 @@ def prop_matrix(ch, ctx):
     src = view_spec(pspec, view)
     # phases of the target: equal to the source's when asked and possible, otherwise independent
     tph = None
-    if ch.bool('tgt.same_phases') and ((sk == 'M') == (tk == 'M')):
-        tph = list(src['phases'])
+    mode = ch.choice('tgt.phase_mode', ['same', 'twins', 'indep', 'indep'])
+    if mode != 'indep':
+        base = list(src['phases'])
+        if mode == 'twins':
+            base = [twin(p) if (p != 'g' and ch.bool(f'tgt.flip.{p}')) else p for p in base]
+        base = sorted(set(base))
+        if tk in ('S', 'M1'):
+            tph = [base[ch.int('tgt.pick', 0, len(base) - 1)]] if len(base) > 1 else base
+        else:
+            if len(base) < 2:
+                base = sorted(base + ch.subset('tgt.extra', [q for q in ALL if q not in base], min_size=1, max_size=2))
+            tph = base
     if op == 'copy_flow' and tk != 'S' and sk in ('M', 'M1'):
         tph = list(src['phases']); tk = sk   # positional rows: equal phase tuples
     tgt = draw_stream(ch, 'tgt', tk, tpkg, phases=tph)
